@@ -3,8 +3,40 @@
 //! exit 0: harness ran to its end; 101: panic (assertion or crate panic) = reproduced;
 //! 77: blocks for ever where that is a violation; 78: an assumption of the harness does not hold
 //! (values do not describe a valid case); 79: values do not fit the harness.
+/// `replay --eval-sizes v...`: the real size functions (through hook H3) on the given inputs, one
+/// line per input: v fragment_size first_fragment_size CMSG_ALIGN CMSG_LEN CMSG_SPACE S_ISSOCK
+/// ("panic" where the real function panics) — the translator validation compares these with the
+/// SMT model of the same functions.
+fn eval_sizes(vals: &[String]) {
+    use ipc_channel::platform::verif_hooks as ph;
+    std::panic::set_hook(Box::new(|_| {}));
+    fn show<T: std::fmt::Display>(r: std::thread::Result<T>) -> String {
+        match r {
+            Ok(v) => v.to_string(),
+            Err(_) => "panic".to_string(),
+        }
+    }
+    for v in vals {
+        let x: usize = v.parse().unwrap();
+        println!(
+            "{} {} {} {} {} {} {}",
+            x,
+            show(std::panic::catch_unwind(|| ph::fragment_size(x))),
+            show(std::panic::catch_unwind(|| ph::first_fragment_size(x))),
+            show(std::panic::catch_unwind(|| ph::cmsg_align(x))),
+            show(std::panic::catch_unwind(|| ph::cmsg_len(x))),
+            show(std::panic::catch_unwind(|| ph::cmsg_space(x))),
+            show(std::panic::catch_unwind(|| ph::s_issock(x as u32) as u8)),
+        );
+    }
+}
+
 fn main() {
     let a: Vec<String> = std::env::args().collect();
+    if a.len() >= 2 && a[1] == "--eval-sizes" {
+        eval_sizes(&a[2..]);
+        return;
+    }
     if a.len() < 2 {
         eprintln!("usage: replay <harness> [values.json | --random <seed>]");
         std::process::exit(2);
